@@ -153,11 +153,17 @@ class ReduceNode(Node):
         self,
         state: dict[str, Any],
         load_context: LoadContext,
-        constructor: Type[Any],
+        constructor: Optional[Type[Any]],
         trusted: Optional[Sequence[str]] = None,
     ) -> None:
         super().__init__(state, load_context, trusted)
         reduce = state["__reduce__"]
+        if constructor is None:
+            # the constructor is named by the state itself; it must not be
+            # resolved before the audit, only recorded
+            constructor_name = (state["__module__"], state["__class__"])
+        else:
+            constructor_name = (get_module(constructor), constructor.__name__)
         self.children = {
             "attrs": get_tree(state["content"], load_context, trusted=trusted),
             "args": get_tree(reduce["args"], load_context, trusted=trusted),
@@ -165,8 +171,8 @@ class ReduceNode(Node):
                 # no "__id__": this node is not part of the archive and must not
                 # be memoized among the archive's own ids
                 {
-                    "__class__": constructor.__name__,
-                    "__module__": get_module(constructor),
+                    "__class__": constructor_name[1],
+                    "__module__": constructor_name[0],
                 },
                 load_context,
                 trusted=trusted,
@@ -256,7 +262,7 @@ class LossNode(ReduceNode):
         super().__init__(
             state,
             load_context,
-            constructor=gettype(state["__module__"], state["__class__"]),
+            constructor=None,
             trusted=self.trusted,
         )
 
